@@ -63,7 +63,8 @@ func runC09(c *Ctx) {
 		ok := isStore && a.Kind == "write"
 		if ok {
 			_, isParam := st.Val.(*ssa.Parameter)
-			ok = isParam
+			// (enum form: a value decided by the constructor's bool parameter, resolved with the model)
+			ok = isParam || (m.modeEnum && m.modeSrc != nil && m.modeSrc.Parent() == a.Fn)
 			ctorFn = a.Fn
 		}
 		c.Check(ok, "R1.cachewrites", "mode flag writer "+shortFn(a.Fn), w.Pos(a.Instr.Pos()), "the constructor stores its mode parameter", "the no-upstream flag is written outside the constructor or not from the constructor's parameter")
@@ -89,8 +90,11 @@ func runC09(c *Ctx) {
 				key := shortFn(fn)
 				// mode on: field load true, or (constructor) the mode parameter true
 				modeOn := f.Any(b, func(l Lit) bool {
-					if m.isLoadOfField(l.V, m.fNoUp) {
-						return l.Pol
+					if on, ok := m.modeLit(l); ok {
+						return on
+					}
+					if p, ok := w.canon(fn, l.V).(*ssa.Parameter); ok && fn == ctorFn && l.Pol && m.modeEnum && p == m.modeSrc {
+						return true
 					}
 					if p, ok := w.canon(fn, l.V).(*ssa.Parameter); ok && fn == ctorFn && l.Pol {
 						// it is the parameter stored into the mode field
@@ -205,7 +209,10 @@ func runC09(c *Ctx) {
 					}
 				}
 				for l := range gate {
-					if m.isLoadOfField(l.V, m.fNoUp) {
+					if on, isMode := m.modeLit(l); isMode {
+						if !on {
+							extra = "the mode being off (in no-upstream mode the entry of a removed certificate would stay)"
+						}
 						continue
 					}
 					ex := w.Short(l.V)
@@ -284,6 +291,16 @@ func shimSpec(c *Ctx, m *shimModel, onAgentCall func(method string, args []ssa.V
 		sort.Slice(ks, func(i, j int) bool { return ks[i] < ks[j] })
 		for _, k := range ks {
 			domain["locked"] = append(domain["locked"], absVal{K: avInt, I: k})
+		}
+	}
+	if m.modeEnum {
+		var ks []int64
+		for k := range m.modeVals {
+			ks = append(ks, k)
+		}
+		sort.Slice(ks, func(i, j int) bool { return ks[i] < ks[j] })
+		for _, k := range ks {
+			domain["noup"] = append(domain["noup"], absVal{K: avInt, I: k})
 		}
 	}
 	return &dtSpec{
@@ -410,6 +427,13 @@ func listingTable(c *Ctx, m *shimModel, fn *ssa.Function, name string) map[strin
 	// decided outside it (bulk append, checked below).
 	isModeValue := func(v ssa.Value) bool {
 		v = w.canon(fn, v)
+		if m.modeEnum {
+			// the comparison of the state with the constant meaning "on" (polarity: equal)
+			if on, ok := m.modeLit(Lit{v, true}); ok {
+				return on
+			}
+			return false
+		}
 		return m.isLoadOfField(v, m.fNoUp)
 	}
 	modeHoisted := false
@@ -573,12 +597,15 @@ func listingTable(c *Ctx, m *shimModel, fn *ssa.Function, name string) map[strin
 		}
 	}
 	tbl := map[string]bool{}
-	dom := map[string][]absVal{"casterr": spec.Domain["casterr"], "kiderr": spec.Domain["kiderr"]}
+	dom := map[string][]absVal{"casterr": spec.Domain["casterr"], "kiderr": spec.Domain["kiderr"], "noup": spec.Domain["noup"]}
 	rows := 0
 	for _, val := range dtValuations([]string{"casterr", "kiderr", "noup", cacheAtom}, dom) {
 		castFails := val["casterr"].K == avNonNil
 		kidOK := val["kiderr"].K == avNil
 		noup := val["noup"].B
+		if m.modeEnum {
+			noup = val["noup"].I == m.modeOnK
+		}
 		hit := val[cacheAtom].B
 		if hit && !noup {
 			continue // infeasible: the cache is only written in no-upstream mode (R1)
@@ -684,7 +711,7 @@ func signTable(c *Ctx, m *shimModel) {
 	for _, u := range und {
 		c.Und("R3.sign", "SignWithFlags|interpretable", w.FnPos(fn), u)
 	}
-	dom := map[string][]absVal{"casterr": spec.Domain["casterr"], "kiderr": spec.Domain["kiderr"], "filterr": spec.Domain["filterr"], "locked": spec.Domain["locked"]}
+	dom := map[string][]absVal{"casterr": spec.Domain["casterr"], "kiderr": spec.Domain["kiderr"], "filterr": spec.Domain["filterr"], "locked": spec.Domain["locked"], "noup": spec.Domain["noup"]}
 	rows := 0
 	for _, val := range dtValuations([]string{"locked", "filterr", "casterr", memAtom, "kiderr", "noup"}, dom) {
 		rows++
@@ -697,6 +724,9 @@ func signTable(c *Ctx, m *shimModel) {
 		mem := val[memAtom].B
 		kidOK := val["kiderr"].K == avNil
 		noup := val["noup"].B
+		if m.modeEnum {
+			noup = val["noup"].I == m.modeOnK
+		}
 		want := "forward"
 		switch {
 		case locked || ferr:
